@@ -69,6 +69,14 @@ def main():
         h.record(('comb', case), True)
         if Xm.shape != (ns, nf + 1) or not np.allclose(Xm[:, nf], exp) or not np.array_equal(Xm[:, :nf], X) or info['combination_ix'] != nf:
             h.fail('generate_combinations.stated_function_of_sources', dict(base, feature_indices=cidx, type=ctype), f'combination_ix {info["combination_ix"]}')
+        # combinations of large-valued int32 sources (domains around 10^9): the stated function is the exact sum, not a wrapped one
+        Xbig = (X.astype(np.int64) % 3 + 1).astype(np.int32) * np.int32(700_000_000)
+        Xmb = g.generate_combinations(Xbig, cidx, combination_type='linear')
+        expb = Xbig[:, cidx].astype(np.int64).sum(axis=1)
+        h.record(('comb_big', case), True)
+        if Xmb.shape != (ns, nf + 1) or not np.array_equal(Xmb[:, nf].astype(np.float64), expb.astype(np.float64)):
+            h.fail('generate_combinations.stated_function_of_sources', dict(base, feature_indices=cidx, type='linear', values='int32 multiples of 7*10^8'),
+                   f'got {Xmb[:3, nf].tolist()} expected {expb[:3].tolist()}')
         # ---- labels (quantile branches): monotone step function, proportions when cut points are tie-free
         ncls = int(rng.choice([2, 2, 3, 4]))
         Xf = X.astype(float) + rng.random(X.shape) * 1e-3      # tie-free decision values
@@ -156,4 +164,4 @@ def main():
 
 
 if __name__ == '__main__':
-    sys.exit(main())
+    sys.exit(common.run_main(main))
